@@ -58,4 +58,17 @@ def DispatchOk (bits k : Nat) (r : Nat × Nat × Nat) : Prop :=
 instance (bits k : Nat) (r : Nat × Nat × Nat) : Decidable (DispatchOk bits k r) := by
   unfold DispatchOk; infer_instance
 
+/-- SIQS polynomials fit 256 bits (`_finish_polynomial`: `assert!(a.a.bits() + 2 * mlog < 255)`,
+`assert!(pol.b.bits() + mlog < 255)`, `assert!(pol.c.abs().bits() < 255)`) for an `sz`-bit `n·k`
+and interval `M`, read from the code: with `X = isqrt(2n)` (type 1; type 2 uses `isqrt(n/2)`,
+smaller), `bits X = (sz + 2) / 2`; the target is `T = max(2000, X / (M/2))`, so
+`bits T ≤ max(11, bits X - bits(M/2) + 1)`; `select_a` keeps `T - T/div < A < T + T/div`,
+`div ≥ 3`, so `bits T - 1 ≤ bits A ≤ bits T + 1`; `0 ≤ B < A`; `|C| ≤ n / A`.
+First conjunct: the bound on `A` (it implies the one on `B`); second: the bound on `C`. -/
+def SiqsPolyFits (sz M : Nat) : Prop :=
+  max 11 ((sz + 2) / 2 + 1 - bitlen (M / 2)) + 1 + 2 * bitlen M < 255 ∧
+  sz + 2 - ((sz + 2) / 2 - bitlen (M / 2) - 1) < 255
+
+instance (sz M : Nat) : Decidable (SiqsPolyFits sz M) := by unfold SiqsPolyFits; infer_instance
+
 end Ymq.C20
